@@ -20,7 +20,7 @@ N_PIs == {[lo |-> <<"a">>, v |-> <<"d">>]}
 XmlLang == Nm(XmlNsUri, <<"l","a","n","g">>)
 L_ElemNames == {Nm(<<>>, <<"a">>)}
 L_AttrNames == {XmlLang, Nm(<<>>, <<"l","a","n","g">>)}   \* a plain lang attribute (the XHTML idiom lang="en" xml:lang="en") is not xml:lang
-L_AttrValues == {<<"e","n">>, <<"E","N","-","u","s","-","x">>, <<"f","r">>, <<>>}   \* a tag with three subtags: ranges en, en-US and en-us-x match it
+L_AttrValues == {<<"e","n">>, <<"E","N","-","u","s","-","x">>, <<"Z","h">>, <<>>}   \* a tag with three subtags: ranges en, en-US and en-us-x match it
 L_Texts == {<<"t">>}
 L_Comments == {<<"c">>}
 View == <<doc, open, phase>>
@@ -69,6 +69,10 @@ PoolC11 == << All(T_name("p", <<"a">>)), All(T_name("q", <<"a">>)), All(T_name("
               Call(<<"c","o","u","n","t">>, <<Call(<<"h","e","r","e">>, <<>>)>>),
               Abs(<<DoS, Step("child", T_any), FnStep(Call(<<"h","e","r","e">>, <<>>))>>),
               Bin("eq", Var("p", <<"v">>), IntE(2)), Call(<<"s","t","r","i","n","g">>, <<Var("", <<"v">>)>>),
+              \* a prefixed name test where no context node has a candidate on the axis (children / attributes of text nodes):
+              \* an unbound prefix is an error all the same, a bound one selects nothing
+              Abs(<<DoS, Step("child", T_text), Step("child", T_name("q", <<"a">>))>>), Abs(<<DoS, Step("child", T_text), Step("attribute", T_name("q", <<"x">>))>>),
+              Abs(<<DoS, Step("child", T_text), Step("child", T_nsany("q"))>>), Call(<<"c","o","u","n","t">>, <<Abs(<<DoS, Step("child", T_text), Step("child", T_name("d", <<"a">>))>>)>>),
               Call(<<"l","a","s","t">>, <<>>), Abs(<<DoS, StepP("child", T_any, <<Call(<<"p","o","s","i","t","i","o","n">>, <<>>)>>)>>),
               Abs(<<DoS, StepP("child", T_any, <<Bin("eq", Call(<<"l","a","s","t">>, <<>>), Lit(<<"m","i","n","e">>))>>)>>) >>
 \* invariance under consistent renaming of the query's prefixes: swapping the roles of p and q in
@@ -113,9 +117,17 @@ PoolC12n == [i \in 1..3 |-> Call(NameFns[i], <<>>)]
                   Bin("eq", Call(S_nm, <<>>), Call(S_ln, <<>>)),
                   Call(<<"c","o","u","n","t">>, <<Lit(<<"a">>)>>), Call(<<"c","o","u","n","t">>, <<IntE(1)>>), Call(<<"c","o","u","n","t">>, <<Call(<<"t","r","u","e">>, <<>>)>>),
                   Call(<<"c","o","u","n","t">>, <<Rel(<<Step("ancestor-or-self", T_node)>>)>>),
-                  Abs(<<DoS, Step("child", T_any), FnStep(Call(S_nm, <<>>))>>) >>
+                  Abs(<<DoS, Step("child", T_any), FnStep(Call(S_nm, <<>>))>>),
+                  \* a node-set the CALLER put together ($u, see EnvC12Of): neither ascending nor descending, its first node in
+                  \* document order sits in the middle
+                  Call(S_nm, <<Var("", <<"u">>)>>), Call(S_ln, <<Var("", <<"u">>)>>), Call(S_nu, <<Var("", <<"u">>)>>) >>
 \* the namespace axis only holds one node per prefix here, so "first in document order" is determined
 EnvC12 == EnvNs([p |-> U1])
+\* $u: the named tree nodes of the document (elements, PIs) in the order second, first, third, ... - what a caller gets
+\* who collects cursors himself
+NamedIds(dd) == Asc({n \in Ids(dd) : dd[n].k \in {"elem", "pi"}})
+Shuffled(s) == IF Len(s) < 2 THEN s ELSE <<s[2], s[1]>> \o SubSeq(s, 3, Len(s))
+EnvC12Of(dd) == [ns |-> [p |-> U1], vars |-> <<[sp |-> <<>>, lo |-> <<"u">>, val |-> [t |-> "ns", v |-> Shuffled(NamedIds(dd))]]>>, funcs |-> <<>>]
 NameLaws == (Complete /\ Family = "C12n") => \A n \in Ids(doc) :
   LET V(f) == Eval(doc, EnvC12, Call(f, <<>>), Ctx(n)).v IN
   /\ (V(S_nu) = <<>> => V(S_nm) = V(S_ln))
@@ -123,7 +135,7 @@ NameLaws == (Complete /\ Family = "C12n") => \A n \in Ids(doc) :
   /\ (doc[n].k \in {"root", "text", "comment"} => V(S_ln) = <<>> /\ V(S_nu) = <<>>)
   /\ (doc[n].k \in {"pi", "ns"} => V(S_ln) = doc[n].lo /\ V(S_nu) = <<>>)
 
-LangTags == << <<"e","n">>, <<"E","N">>, <<"e","n","-","U","S">>, <<"e","n","-","u">>, <<"f","r">>, <<"e">>, <<>>, <<"e","n","-">>, <<"e","n","-","u","s","-","x">> >>
+LangTags == << <<"e","n">>, <<"E","N">>, <<"e","n","-","U","S">>, <<"e","n","-","u">>, <<"z","H">>, <<"e">>, <<>>, <<"e","n","-">>, <<"e","n","-","u","s","-","x">> >>
 S_lang == <<"l","a","n","g">>
 PoolC12l == [i \in 1..Len(LangTags) |-> Call(S_lang, <<Lit(LangTags[i])>>)]
             \o << Abs(<<DoS, StepP("child", T_node, <<Call(S_lang, <<Lit(<<"e","n">>)>>)>>)>>),
@@ -143,7 +155,7 @@ ASSUME Family = "C12l" => EmitPool("C12.lang", PoolC12l)
 RootCases(dd, env, pool) == [i \in 1..Len(pool) |-> CCase(dd, env, 1, pool, i)]
 Emit == Complete =>
   CASE Family = "C11" -> \A i \in 1..Len(NsMaps) : EmitLine("C11.bind", doc, EnvOf(i), RootCases(doc, EnvOf(i), PoolC11))
-    [] Family = "C12n" -> EmitLine("C12.names", doc, EnvC12, AllCCases(doc, EnvC12, PoolC12n))
+    [] Family = "C12n" -> EmitLine("C12.names", doc, EnvC12Of(doc), AllCCases(doc, EnvC12Of(doc), PoolC12n))
     [] Family = "C12l" -> EmitLine("C12.lang", doc, EmptyEnv, AllCCases(doc, EmptyEnv, PoolC12l))
     [] OTHER -> TRUE
 =============================================================================
